@@ -72,7 +72,7 @@ CHECKS = {
     "C16": dict(
         engine="frames", category="other", design_ref="DESIGN.md §3, §6 C16",
         technique="frame contracts per task (monitored on the real closures by a substituted pool) + z3-proved commutation lemma => every schedule; static store-site obligations; no schedule is explored",
-        text="Universal in schedules by non-interference, bounded in inputs: every task of every pooled evaluation in scope writes only its own block (O1), blocks are disjoint (O2), a task's block does not depend on other blocks (O3), no object attribute changes except diagnostics (O4); z3 proves tasks with O1-O3 commute; the monitored pooled result (tasks in reverse order) equals serial bit for bit; thorough tier also runs the real ThreadPool with sizes 1-16.",
+        text="Universal in schedules by non-interference, bounded in inputs: every task of every pooled evaluation in scope writes only its own block (O1), blocks are disjoint (O2), a task's block does not depend on other blocks (O3), no object attribute changes except diagnostics (O4), every sub-cube is handed to the pool exactly once (O5; cubes with up to 130 sub-cubes, thorough 1025; statically: the pooled branch maps the serial branch's iterable once); z3 proves tasks with O1-O3 commute; the monitored pooled result (tasks in reverse order) equals serial bit for bit; thorough tier also runs the real ThreadPool with sizes 1-16.",
         note="Assumed: stores to distinct elements do not interfere, ThreadPool.map joins, n-task / bytecode-granularity lift of the lemma; channels outside the monitored regions and object attributes (NumPy C globals, warnings filters) are invisible. A deterministic scheduler is a different technique family and is not used.",
     ),
     "C17": dict(
@@ -101,8 +101,8 @@ CHECKS = {
     ),
     "C14": dict(
         engine="rtc", category="exploration", design_ref="DESIGN.md §4, §6 C14",
-        technique='run-time contracts on the real functions over an exhaustively enumerated bounded scope (bounded stand-in: NumPy-heavy bodies are outside the VC generator)',
-        text='Ghost trace of the callbacks of the real walk and of every recursion branch of _walk: delivers every non-empty uncommon/marginal combination, nothing else and each exactly once, row ids equal the brute-force rows(c), uint32 strictly increasing, never the common category; base_rowids is the running intersection at every entry.',
+        technique='deductive verification of the real _walk recursion (symbolic execution of its AST per contract case, z3; induction over the number of dimensions) + run-time contracts on real walks over an exhaustively enumerated bounded scope',
+        text='Proved for all dimensions, data and depths (31 obligations from the working-tree AST of _walk): an arbitrary coordinate tuple is delivered exactly once iff every coordinate is a key or -1, not all are -1 and the intersection is non-empty, with exactly the intersection as strictly increasing rows; recursive calls meet the contract on strictly shorter dims; the set-level kernel contract is derived from the contract C08 proves. Bounded: ghost trace of the callbacks of the real walk and of every recursion branch of _walk: delivers every non-empty uncommon/marginal combination, nothing else and each exactly once, row ids equal the brute-force rows(c), uint32 strictly increasing, never the common category; base_rowids is the running intersection at every entry.',
         note='Bounded (same enumeration as C02, 1-3 one-axis dimensions, 4 in the thorough tier).',
     ),
     "C03": dict(
